@@ -248,7 +248,8 @@ def _fp_prop(v, d):
     if isinstance(v, tuple):
         return ("tuple", tuple(_fp_prop(x, d + 1) for x in v))
     if isinstance(v, dict):
-        return ("dict", tuple((_fp_key(k), _fp_prop(x, d + 1)) for k, x in v.items()))
+        # key order is not part of a schema's meaning (dict == ignores it; the text may print ...: ... elsewhere)
+        return ("dict", tuple(sorted(((_fp_key(k), _fp_prop(x, d + 1)) for k, x in v.items()), key=repr)))
     return _fp_val(v)
 
 
